@@ -4,8 +4,15 @@ From C14 Require Import Model Proofs.
 Import ListNotations.
 Open Scope Z_scope.
 
+Fixpoint size_params (ps : params) : nat :=
+  match ps with
+  | PNil => 0
+  | PCons _ _ _ _ d r => (match d with Some e => size_e e | None => 0 end) + size_params r
+  end%nat.
+
 Fixpoint size_s (s : stmt) : nat :=
   match s with
+  | SDef _ _ ps b0 bs => 1 + size_params ps + size_s b0 + size_ss bs
   | SExpr _ e => 1 + size_e e
   | SAssign _ t v => 1 + size_es t + size_e v
   | SReturn _ v => 1 + match v with Some e => size_e e | None => 0 end
@@ -51,6 +58,35 @@ Proof.
   rewrite mk_block_as_block. reflexivity.
 Qed.
 
+Lemma nth_kind : forall k, nth_error ARG_KINDS (Z.to_nat (argkind_idx k)) = Some k.
+Proof. destruct k; reflexivity. Qed.
+
+Lemma read_param_ok : forall f p n kd d K,
+  match d with Some e => wf_e e /\ (size_e e <= f)%nat | None => True end ->
+  read_param_with (read_expr f)
+    (str_k n (int_k (argkind_idx (param_kind kd d)) (B false ::
+       match d with
+       | Some e => B true :: emit_e e (B (emit_pos_only kd n) :: loc_k p K)
+       | None => B false :: B (emit_pos_only kd n) :: loc_k p K
+       end)))
+  = Some (MArg p p n (param_kind kd d) (match d with Some e => Some (conv_e e) | None => None end) (emit_pos_only kd n), K).
+Proof.
+  intros f p n kd d K H. unfold read_param_with, str_k, int_k. destruct d as [e|].
+  - destruct H as [Hw Hf]. rewrite nth_kind. rewrite read_expr_ok by auto. cbv beta iota. rewrite read_loc_ok. reflexivity.
+  - rewrite nth_kind. cbv beta iota. rewrite read_loc_ok. reflexivity.
+Qed.
+
+Lemma read_params_ok : forall ps, wf_params ps -> forall f k, (size_params ps <= f)%nat ->
+  read_n (read_param_with (read_expr f)) (len_params ps) (emit_params ps k) = Some (conv_params ps, k).
+Proof.
+  induction ps as [|p sp n kd d r IH]; intros Hw f k Hf; [reflexivity|].
+  cbn [wf_params size_params] in *. destruct Hw as [Hsp [Hpo [Hd Hr]]]. subst sp.
+  cbn [len_params emit_params read_n conv_params].
+  rewrite read_param_ok.
+  - rewrite IH by (auto; lia). rewrite Hpo. reflexivity.
+  - destruct d; [split; [auto | lia] | exact Logic.I].
+Qed.
+
 Definition Ps (s : stmt) := wf_s s -> forall f k, (size_s s <= f)%nat -> read_stmt f (emit_s s k) = Some (conv_s s, k).
 Definition Pss (ss : stmts) := wf_ss ss -> forall f k, (size_ss ss <= f)%nat ->
   read_n (read_stmt f) (len_ss ss) (emit_ss ss k) = Some (conv_ss ss, k).
@@ -74,6 +110,10 @@ Proof. intros f o K Ho Wo Hf. apply read_oblock_ok. apply Ho; auto. Qed.
 Lemma read_stmt_ok_all : (forall s, Ps s) /\ (forall ss, Pss ss) /\ (forall el, Pel el).
 Proof.
   apply stmt_all_mut; unfold Pel; try (intros; exact Logic.I).
+  - (* SDef *) intros p name ps b0 IH0 bs IHs Hw f k Hf. fuel f. cbn [wf_s size_s] in *.
+    destruct Hw as [Wp [W0 Ws]]. cbn [emit_s read_stmt]. unfold str_k. red1.
+    rewrite read_params_ok by (auto; lia). red1.
+    rewrite (block_from_IH f b0 bs) by (auto; lia). red1. apply loc_finish_ok.
   - (* SExpr *) intros p e Hw f k Hf. fuel f. cbn [wf_s size_s] in *. destruct Hw as [Hp He].
     cbn [emit_s read_stmt]. red1. rewrite read_expr_ok by (auto; lia). cbn [finish]. rewrite mepos_conv, <- Hp. reflexivity.
   - (* SAssign *) intros p t v Hw f k Hf. fuel f. cbn [wf_s size_s] in *. destruct Hw as [Ht Hv].
@@ -153,8 +193,26 @@ Lemma size_le_ntok_all :
   (forall e, size_e e <= ntok_e e)%nat /\ (forall es, size_es es <= ntok_es es)%nat /\ (forall a, size_args a <= ntok_args a)%nat /\ (forall c, size_cmps c <= ntok_cmps c)%nat.
 Proof. apply expr_all_mut; intros; cbn [size_e size_es size_args size_cmps ntok_e ntok_es ntok_args ntok_cmps]; lia. Qed.
 
+Fixpoint ntok_params (ps : params) : nat :=
+  match ps with
+  | PNil => 0
+  | PCons _ _ _ _ d r => 12 + (match d with Some e => ntok_e e | None => 0 end) + ntok_params r
+  end%nat.
+
+Lemma len_emit_params : forall ps k, List.length (emit_params ps k) = (ntok_params ps + List.length k)%nat.
+Proof.
+  induction ps as [|p sp n kd d r IH]; intros; cbn [emit_params ntok_params]; [lia|].
+  unfold str_k, int_k, loc_k. destruct d; cbn [List.length]; rewrite ?(proj1 emit_e_length_all); cbn [List.length]; rewrite IH; lia.
+Qed.
+Lemma size_le_ntok_params : forall ps, (size_params ps <= ntok_params ps)%nat.
+Proof.
+  induction ps as [|p sp n kd d r IH]; cbn [size_params ntok_params]; [lia|].
+  destruct d as [e|]; [pose proof (proj1 size_le_ntok_all e)|]; lia.
+Qed.
+
 Fixpoint ntok_s (s : stmt) : nat :=
   match s with
+  | SDef _ _ ps b0 bs => 19 + ntok_params ps + ntok_s b0 + ntok_ss bs
   | SExpr _ e => 2 + ntok_e e
   | SAssign _ t v => 11 + ntok_es t + ntok_e v
   | SReturn _ v => 8 + match v with Some e => ntok_e e | None => 0 end
@@ -179,7 +237,7 @@ Proof.
     cbn [emit_s emit_ss emit_elifs ntok_s ntok_ss ntok_el];
     repeat match goal with H : forall k : list tok, List.length (emit_ss (SCons _ _) k) = _ |- _ => cbn [emit_ss ntok_ss] in H end;
     repeat (cbn [List.length str_k int_k loc_k blk];
-            first [ rewrite He | rewrite Hes
+            first [ rewrite He | rewrite Hes | rewrite len_emit_params
                   | match goal with H : forall k : list tok, List.length _ = _ |- _ => rewrite H end ]);
     unfold str_k, int_k, loc_k, blk; cbn [List.length]; lia.
 Qed.
@@ -189,6 +247,7 @@ Lemma size_le_ntok_s_all :
 Proof.
   destruct size_le_ntok_all as [He [Hes _]].
   apply stmt_all_mut; intros; cbn [size_s size_ss size_el ntok_s ntok_ss ntok_el];
+    try match goal with |- context [size_params ?ps] => pose proof (size_le_ntok_params ps) end;
     repeat match goal with
     | |- context [size_e ?e] => lazymatch goal with _ : (size_e e <= ntok_e e)%nat |- _ => fail | _ => pose proof (He e) end
     | |- context [size_es ?e] => lazymatch goal with _ : (size_es e <= ntok_es e)%nat |- _ => fail | _ => pose proof (Hes e) end
